@@ -359,15 +359,23 @@ def rule_r6(prog, res) -> None:
     else:
         res.violation("C15.R6", ss, ss.node, f"_set_scales does not reject rmin >= rmax (outcomes for (min, max) = (1,2) / (2,2) / (3,2): {sverdict[(1.0, 2.0)]} / {sverdict[(2.0, 2.0)]} / {sverdict[(3.0, 2.0)]})", key_extra="scales-not-strict")
     for sub in prog.subclasses(sc):
-        i2 = sub.methods.get("__init__")
+        # the constructor that runs for this class (its own or an inherited one), helper methods looked through
+        i2 = prog.find_method(sub, "__init__")
         if i2 is None:
             continue
         res.touch(i2)
-        calls = [c for c in calls_in(i2) if isinstance(c.func, ast.Attribute) and c.func.attr == "_set_scales"]
-        unitc = [x for x in walk_no_nested(i2.node) if isinstance(x, ast.Assign) and any(unparse(t) == "self.unit" for t in x.targets) and isinstance(x.value, ast.Call) and (dotted(x.value.func) or "") == "Unit"]
-        direct = [x for x in walk_no_nested(i2.node) if isinstance(x, ast.Assign) and any(unparse(t) in ("self.scale_min", "self.scale_max") for t in x.targets)]
-        if calls and unitc and not direct:
-            res.ok("C15.R6", res.site(i2), "scales set through _set_scales, unit validated by the Unit enum")
+        ipaths = [p for p in symx.explore(prog, i2, inline=lambda caller, call, callee: callee.cls is not None and callee.name not in ("_set_scales", "__init__")) if p.outcome != "raise"]
+        ok_ = bool(ipaths)
+        for p in ipaths:
+            unit_v = p.store.get("self.unit")
+            if not p.calls("_set_scales"):
+                ok_ = False
+            if not (isinstance(unit_v, ast.Call) and (dotted(unit_v.func) or "") == "Unit"):
+                ok_ = False
+            if "self.scale_min" in p.store or "self.scale_max" in p.store:
+                ok_ = False
+        if ok_:
+            res.ok("C15.R6", res.site(i2, sub.name), "scales set through _set_scales, unit validated by the Unit enum")
         else:
             res.violation("C15.R6", i2, i2.node, f"{sub.name} sets its scales/unit without validation", key_extra=f"{sub.name}-unvalidated")
     bc = prog.find_class("BinningConfig")
